@@ -32,11 +32,11 @@ import (
 	"verifharness/vh"
 )
 
+// only fatal log lines are shown (a log.Fatal inside the application ends the driver: it must be visible)
 func init() {
-	if os.Getenv("VERIF_LOG") == "" {
-		zerolog.SetGlobalLevel(zerolog.Disabled)
-	} else {
-		zerolog.SetGlobalLevel(zerolog.FatalLevel)
+	zerolog.SetGlobalLevel(zerolog.FatalLevel)
+	if os.Getenv("VERIF_LOG") != "" {
+		zerolog.SetGlobalLevel(zerolog.InfoLevel)
 	}
 }
 
